@@ -6,6 +6,7 @@ package workerrun
 
 import (
 	"context"
+	"database/sql"
 	"database/sql/driver"
 	"errors"
 	"fmt"
@@ -30,16 +31,18 @@ type Item struct {
 //	D  DELETE executed on r (Ok, Rm = rows it removed; X,B = its single pair or 0,0)
 //	P  Prepare failed on r (injected)          U  unknown statement on r
 type Ev struct {
-	K   string `json:"k"`
-	I   int    `json:"i,omitempty"`
-	R   int    `json:"r,omitempty"`
-	X   int    `json:"x,omitempty"`
-	B   int64  `json:"b,omitempty"`
-	Ok  bool   `json:"ok,omitempty"`
-	St  int    `json:"st,omitempty"`
-	Err string `json:"err,omitempty"`
-	Rm  []Item `json:"rm,omitempty"`
-	Sql string `json:"sql,omitempty"`
+	K   string  `json:"k"`
+	I   int     `json:"i,omitempty"`
+	R   int     `json:"r,omitempty"`
+	X   int     `json:"x,omitempty"`
+	B   int64   `json:"b,omitempty"`
+	Ok  bool    `json:"ok,omitempty"`
+	St  int     `json:"st,omitempty"`
+	Err string  `json:"err,omitempty"`
+	Rm  []Item  `json:"rm,omitempty"`
+	Xs  []int   `json:"xs,omitempty"` // a DELETE naming several xids / branch ids (cross product)
+	Bs  []int64 `json:"bs,omitempty"`
+	Sql string  `json:"sql,omitempty"`
 }
 
 type world struct {
@@ -47,9 +50,14 @@ type world struct {
 	xids    []string // index 1..
 	tables  map[int][]Item
 	connPat map[int][]int // per resource, consumed per Connect: 1 = fail
-	delPat  map[int][]int // per resource, consumed per DELETE: 1 = Exec fails, 2 = Prepare fails
-	trace   []Ev
-	healed  bool
+	// per resource, consumed per DELETE: 0 = succeeds; Exec fails with 1 = a generic error,
+	// 3 = driver.ErrBadConn (database/sql closes the pinned Conn and surfaces sql.ErrConnDone; every
+	// further statement on that Conn then fails with sql.ErrConnDone without reaching the driver),
+	// 5 = context.Canceled, 6 = an error wrapping sql.ErrConnDone; Prepare fails with 2 = a generic
+	// error, 4 = driver.ErrBadConn (surfaces as such)
+	delPat map[int][]int
+	trace  []Ev
+	healed bool
 }
 
 func (w *world) log(e Ev) {
@@ -156,25 +164,28 @@ func (c *conn) Prepare(q string) (driver.Stmt, error) {
 		mode = w.delPat[c.r][0]
 		w.delPat[c.r] = w.delPat[c.r][1:]
 	}
-	if mode == 2 {
+	if mode == 2 || mode == 4 {
 		w.trace = append(w.trace, Ev{K: "P", R: c.r})
 	}
 	w.mu.Unlock()
 	if mode == 2 {
 		return nil, errors.New("fakedb: prepare failed (injected)")
 	}
+	if mode == 4 {
+		return nil, driver.ErrBadConn
+	}
 	n := 0
 	for _, x := range cs {
 		n += x.n
 	}
-	return &stmt{c: c, conds: cs, nargs: n, failExec: mode == 1}, nil
+	return &stmt{c: c, conds: cs, nargs: n, failExec: mode}, nil
 }
 
 type stmt struct {
 	c        *conn
 	conds    []cond
 	nargs    int
-	failExec bool
+	failExec int // 0 or the Exec failure kind of delPat
 }
 
 func (s *stmt) Close() error  { return nil }
@@ -240,11 +251,24 @@ func (s *stmt) Exec(args []driver.Value) (driver.Result, error) {
 	if len(branches) == 1 && len(xids) == 1 {
 		ev.B = branches[0]
 		ev.X = w.xidIndex(xids[0])
+	} else {
+		ev.Bs = branches
+		for _, x := range xids {
+			ev.Xs = append(ev.Xs, w.xidIndex(x))
+		}
 	}
 	w.mu.Lock()
 	defer w.mu.Unlock()
-	if s.failExec {
+	if s.failExec != 0 {
 		w.trace = append(w.trace, ev)
+		switch s.failExec {
+		case 3:
+			return nil, driver.ErrBadConn
+		case 5:
+			return nil, context.Canceled
+		case 6:
+			return nil, fmt.Errorf("fakedb: server has gone away: %w", sql.ErrConnDone)
+		}
 		return nil, errors.New("fakedb: delete failed (injected)")
 	}
 	var keep []Item
